@@ -40,6 +40,12 @@ finally:
 confirmed = meta.get("patch_applies") and meta.get("suite_passes_with_change") and meta.get("demo_fails_with_change") and meta.get("demo_passes_without_change")
 meta["confirmed"] = bool(confirmed)
 meta["checks"] = {}
+_prev = "/verif/seeded/%s-%s/meta.json" % (pid, n)
+if os.path.exists(_prev):
+    try:
+        meta["checks"] = json.load(open(_prev)).get("checks", {})     # keep results of checks that are not re-run now
+    except Exception:
+        pass
 if confirmed:
     st = run(["git", "-C", "/repo", "status", "--porcelain"]).stdout.strip()
     assert st == "", "repo not clean: " + st
